@@ -603,6 +603,33 @@ def check_C20(tier, seed):
         run_mode(res, [cases[i] for i in sub], [lines[i] for i in sub], "deferred", stats_d)
         res.coverage["eager"] = stats
         res.coverage["deferred"] = stats_d
+        # "nodes that compare equal hash equally", across two separately loaded texts, eager and deferred, four node types
+        # (hx_c07 eqpair: E/H = equal / hashes equal for the eager documents, D/G for the deferred ones): every case text
+        # against itself, against its neighbour, and the same tag written in two ways (deferred leaves keep it as written)
+        texts = [c["text"] for c in cases if 0 < len(c["text"]) <= 600]
+        pairs = [(t, t) for t in texts[:2500]] + list(zip(texts[:1500], texts[1:1501]))
+        pairs += [("!!str a\n", "!<tag:yaml.org,2002:str> a\n"), ("- !!int 1\n", "- !<tag:yaml.org,2002:int> 1\n"),
+                  ("%TAG !e! tag:x,\n--- !e!ab c\n", "%TAG !e! tag:x,a\n--- !e!b c\n"), ("k: !local v\n", "k: !<!local> v\n"),
+                  ("%TAG !y! tag:yaml.org,2002:\n--- !y!str a\n", "!!str a\n"),
+                  ("{!!str a: !!int 1}\n", "{!<tag:yaml.org,2002:str> a: !<tag:yaml.org,2002:int> 1}\n"),
+                  ("{0.0: a}\n", "{-0.0: a}\n"), ("[.nan]\n", "[.NaN]\n"), ("1\n", "0x1\n"), ("'1'\n", "\"1\"\n")]
+        ep = core.run_bin("hx_c07", ["eqpair"], ["%s#%s" % (core.enc(a), core.enc(b)) for a, b in pairs])
+        eqs = dict(equal=0, different=0, skipped=0)
+        for (a, b), o in zip(pairs, ep):
+            res.evaluations += 1
+            f = o.split("|")
+            if o.startswith("|PANIC") or len(f) != 4:
+                res.add_violation("eq/hash of two loaded texts panicked", dict(input=a, other=b), out=o[:200])
+                continue
+            if "SKIP" in f:
+                eqs["skipped"] += 1
+                continue
+            eqs["equal" if f[0][:2] == "E1" else "different"] += 1
+            for t, r in zip(TYPES, f):
+                if (r[:2] == "E1" and r[2:4] != "H1") or (r[4:6] == "D1" and r[6:8] != "G1"):
+                    res.add_violation("%s nodes compare equal but hash differently (E/H eager, D/G deferred)" % t,
+                                      dict(input=a, other=b, node=t), out=o)
+        res.coverage["eq_implies_hash_pairs"] = eqs
         res.coverage["traces_validated_against_impl"] = stats.get("traces-validated-eager", 0) + stats_d.get("traces-validated-deferred", 0)
         for i in (0, 4, len(cases) // 3, len(cases) // 2, len(cases) - 3):
             if 0 <= i < len(cases):
